@@ -95,28 +95,32 @@ def FVal.toInt? : FVal → Option Int
       some (if neg then -v else v)
   | _ => none
 
-/-- encoding of an f64 bit pattern as `dcbor` does it (`f64_cbor_data`) -/
+/-- encoding of an f64 bit pattern as `dcbor` does it (`f64_cbor_data` and the
+narrower paths it delegates to) -/
 def encFloat (bits : Nat) : Bytes :=
   let v := fdecompose 11 52 bits
+  let asInt (i : Int) : Option Bytes :=
+    if 0 ≤ i ∧ i < 2 ^ 64 then some (head 0 i.toNat)
+    else if i < 0 ∧ -(2 ^ 64 : Int) ≤ i then some (head 1 (-1 - i).toNat)
+    else none
   match v with
   | .nan => [0xf9, 0x7e, 0x00]
   | _ =>
-    match v.toInt? with
-    | some i =>
-      if 0 ≤ i ∧ i < 2 ^ 64 then head 0 i.toNat
-      else if i < 0 ∧ -(2 ^ 64 : Int) ≤ i then head 1 (-1 - i).toNat
-      else
-        match fcompose 5 10 v with
-        | some b => 0xf9 :: beBytes 2 b
-        | none => match fcompose 8 23 v with
-          | some b => 0xfa :: beBytes 4 b
-          | none => 0xfb :: beBytes 8 bits
+    match fcompose 5 10 v with
+    | some b16 =>
+      (match v.toInt? with
+       | some i => (asInt i).getD (0xf9 :: beBytes 2 b16)
+       | none => 0xf9 :: beBytes 2 b16)
     | none =>
-      match fcompose 5 10 v with
-      | some b => 0xf9 :: beBytes 2 b
-      | none => match fcompose 8 23 v with
-        | some b => 0xfa :: beBytes 4 b
-        | none => 0xfb :: beBytes 8 bits
+      match fcompose 8 23 v with
+      | some b32 =>
+        (match v.toInt? with
+         | some i => if i < 2 ^ 32 then (asInt i).getD (0xfa :: beBytes 4 b32) else 0xfa :: beBytes 4 b32
+         | none => 0xfa :: beBytes 4 b32)
+      | none =>
+        (match v.toInt? with
+         | some i => (asInt i).getD (0xfb :: beBytes 8 bits)
+         | none => 0xfb :: beBytes 8 bits)
 
 /-! ### encoder -/
 
@@ -214,9 +218,11 @@ def decHead : Bytes → Except DecErr (Nat × Nat × Nat × Bytes)
       if v < 4294967296 && !isFloat then .error .nonCanonical else .ok (mt, ai, v, rest.drop 8)
     else .error .badHeader
 
-/-- float decoding: canonical-form validation and numeric reduction as `dcbor` does
-them on the well-understood part of the domain; the corners where `dcbor`'s own checks
-use saturating casts or single-precision arithmetic are reported as `unmodelledFloat`. -/
+/-- float decoding: canonical-form validation (`validate_canonical_f16/f32/f64`) and the
+numeric reduction of `From<f16/f32/f64> for CBOR`, including the integral values that
+pass validation because of saturating casts and are then turned into integers.  The
+one corner computed in single precision by `dcbor` (negative integral f32) is reported as
+`unmodelledFloat`. -/
 def decFloat (ai : Nat) (v : Nat) : Except DecErr Cbor :=
   if ai == 25 then
     let f := fdecompose 5 10 v
@@ -235,7 +241,13 @@ def decFloat (ai : Nat) (v : Nat) : Except DecErr Cbor :=
     | _ =>
       if (fcompose 5 10 f).isSome then .error .nonCanonical else
       match f.toInt? with
-      | some i => if -(2 ^ 31 : Int) ≤ i ∧ i ≤ 2 ^ 31 then .error .nonCanonical else .error .unmodelledFloat
+      | some i =>
+        if -(2 ^ 31 : Int) ≤ i ∧ i ≤ 2 ^ 31 then .error .nonCanonical
+        else if 0 < i ∧ i < 2 ^ 32 then .ok (.uint i.toNat)
+        else if i < 0 then .error .unmodelledFloat
+        else match fcompose 11 52 f with
+          | some b => .ok (.float b)
+          | none => .error .unmodelledFloat
       | none => match fcompose 11 52 f with
         | some b => .ok (.float b)
         | none => .error .unmodelledFloat
@@ -246,7 +258,11 @@ def decFloat (ai : Nat) (v : Nat) : Except DecErr Cbor :=
     | _ =>
       if (fcompose 8 23 f).isSome then .error .nonCanonical else
       match f.toInt? with
-      | some i => if -(2 ^ 63 : Int) ≤ i ∧ i ≤ 2 ^ 63 then .error .nonCanonical else .error .unmodelledFloat
+      | some i =>
+        if -(2 ^ 63 : Int) ≤ i ∧ i ≤ 2 ^ 63 then .error .nonCanonical
+        else if 0 < i ∧ i < 2 ^ 64 then .ok (.uint i.toNat)
+        else if i < 0 ∧ -(2 ^ 64 : Int) ≤ i then .ok (.nint (-1 - i).toNat)
+        else .ok (.float v)
       | none => .ok (.float v)
 
 mutual
